@@ -54,6 +54,7 @@ pub fn generator(prop: &str) -> Option<Gen> {
         "C08" => Some(gen::gen_c08),
         "C17" => Some(gen::gen_c17),
         "C15" => Some(gen::gen_c15),
+        "C18" => Some(gen::gen_c18),
         _ => None,
     }
 }
@@ -72,6 +73,7 @@ pub fn budget(prop: &str, tier: &str) -> u64 {
         "C08" => 300,
         "C17" => 300,
         "C15" => 500,
+        "C18" => 300,
         "C14" => 3 * 6 * 155 + 200,
         _ => 150,
     };
